@@ -14,6 +14,7 @@ MUTANTS = [
     ('power uses magnitude of product', [(E + 'power', "(0.5 * self.voltage * np.conj (self.current)).real", "abs (0.5 * self.voltage * np.conj (self.current))")], ['power-formula']),
     ('load weight not doubled on grounded pulse', [(M + 'compute_impedance_matrix_loads', "                    f2 *= 2\n", "                    pass\n")], ['weight', 'grounded']),
     ('vertical test with a tolerance', [('pulse.Pulse.is_non_vertical_grounded', "        return (   (self.ground [0] or self.ground [1])\n               and (self.segs [0].dirvec [0] or self.segs [0].dirvec [1])\n               )", "        return bool (self.ground.any () and np.hypot (self.segs [0].dirvec [0], self.segs [0].dirvec [1]) > 0.01)")], ['vertical-exact']),
+    ('junction step taken along the other segment', [('mininec.Geobj.compute_connections', "            oinc = oseg.dirvec * oseg.seg_len * sgn [1]", "            oinc = other.segments [0].dirvec * other.segments [0].seg_len * sgn [1]")], ['junction-geometry']),
 ]
 REFACTORS = [
     ('power via accumulation loop', [(M + 'compute', "        self.power = sum (s.power for s in self.sources)",
